@@ -644,16 +644,17 @@ Definition wrapper_faithful_for (cls : string) (w : wrapper) : bool :=
   end.
 
 Lemma wrappers_faithful_table :
-  forallb (fun cls => forallb (fun w => w_coerce w || wrapper_faithful_for cls w) wrappers) classes = true.
+  forallb (fun cls => forallb (fun w => wrapper_faithful_for cls w) wrappers) classes = true.
 Proof. vm_compute. reflexivity. Qed.
 
-Lemma wrappers_faithful_partial_proof : forall cls w msig,
-  In cls classes -> In w wrappers -> w_coerce w = false ->
+(* EVERY generated wrapper is faithful for every class that has the target method (no clause left) *)
+Lemma wrappers_faithful_proof : forall cls w msig,
+  In cls classes -> In w wrappers ->
   method_sig tables cls (target_name w) = Some msig -> wrapper_ok msig w = true.
 Proof.
-  intros cls w msig Hc Hw Hco Hm.
+  intros cls w msig Hc Hw Hm.
   pose proof wrappers_faithful_table as H. rewrite forallb_forall in H. specialize (H cls Hc).
-  rewrite forallb_forall in H. specialize (H w Hw). rewrite Hco in H. cbn in H.
+  rewrite forallb_forall in H. specialize (H w Hw).
   unfold wrapper_faithful_for in H. rewrite Hm in H. exact H.
 Qed.
 
@@ -661,14 +662,9 @@ Ltac in_list := cbn; repeat (first [left; reflexivity | right]).
 (* membership in a generated association table, by computation *)
 Ltac in_table := apply assoc_In; vm_compute; reflexivity.
 
-(* sparse.clip converts its receiver with asCOO and accepts `out` without forwarding it *)
-Lemma wrappers_faithful_refuted_proof :
-  exists cls w msig, In cls classes /\ In w wrappers /\ method_sig tables cls (target_name w) = Some msig /\
-    wrapper_ok msig w = false /\ w_coerce w = true /\ wrapper_names_ok msig w = false.
-Proof.
-  exists "GCXS", w_clip. eexists. split; [in_list|]. split; [in_list|].
-  split; [reflexivity|]. split; [vm_compute; reflexivity|]. split; vm_compute; reflexivity.
-Qed.
+Example wrappers_faithful_example :
+  In w_clip wrappers /\ exists msig, method_sig tables "GCXS" "clip" = Some msig /\ wrapper_ok msig w_clip = true.
+Proof. split; [in_list|]. eexists. split; [reflexivity | vm_compute; reflexivity]. Qed.
 
 (* NumPy's own call shapes against the wrapper's signature: np.sum(x, 0) and np.var(x, ddof=1) bind to the
    method but not to the namespace function that NEP-18 dispatches to *)
@@ -732,7 +728,7 @@ Lemma leaf_eqb_refl : forall a, leaf_eqb a a = true.
 Proof. induction a; cbn; try reflexivity; try (rewrite !String.eqb_refl; reflexivity); assumption. Qed.
 
 Definition agree_clauses (cls op : string) (ss : list spelling) : bool :=
-  supported tables cls ss && clause_single_algorithm cls op && clause_not_coerced cls op.
+  supported tables cls ss && clause_single_algorithm cls op.
 
 Lemma spellings_agree_table :
   forallb (fun cls => forallb (fun os => implb (agree_clauses cls (fst os) (snd os)) (all_same_leaf tables cls (snd os)))
@@ -755,18 +751,17 @@ Proof. intros a b H Ha. subst. exact H. Qed.
 Lemma spellings_agree_partial_proof : forall cls op ss s1 s2,
   In cls classes -> In (op, ss) op_classes ->
   supported tables cls ss = true -> clause_single_algorithm cls op = true ->
-  clause_not_coerced cls op = true ->
   In s1 ss -> In s2 ss ->
   resolve tables false FUEL cls s1 = resolve tables false FUEL cls s2.
 Proof.
-  intros cls op ss s1 s2 Hc Ho Hs Ha Hd H1 H2.
+  intros cls op ss s1 s2 Hc Ho Hs Ha H1 H2.
   pose proof spellings_agree_table as T.
   pose proof (proj1 (forallb_forall _ _) T cls Hc) as T1.
   pose proof (proj1 (forallb_forall _ _) T1 (op, ss) Ho) as T2.
   apply (all_same_leaf_pair tables cls ss s1 s2); [|exact H1|exact H2].
   apply (implb_elim _ _ T2). unfold agree_clauses.
   change (fst (op, ss)) with op. change (snd (op, ss)) with ss.
-  rewrite Hs, Ha, Hd. reflexivity.
+  rewrite Hs, Ha. reflexivity.
 Qed.
 
 (* refutation witnesses, one per clause *)
@@ -796,14 +791,33 @@ Proof.
   apply negb_true_iff. exact H3.
 Qed.
 
-Lemma spellings_coerced_refuted_proof :
-  exists op ss s1 s2, In (op, ss) op_classes /\ In s1 ss /\ In s2 ss /\
-    resolve tables false FUEL "GCXS" s1 = LfElemwise "clip" /\
-    resolve tables false FUEL "GCXS" s2 = LfCoerced (LfElemwise "clip").
+(* no spelling of any generated class converts its receiver to another format first *)
+Definition is_coerced_leaf (l : leaf) : bool := match l with LfCoerced _ => true | _ => false end.
+
+Lemma no_spelling_coerces_proof : forall cls op ss s,
+  In cls classes -> In (op, ss) op_classes -> In s ss -> is_coerced_leaf (resolve tables false FUEL cls s) = false.
 Proof.
-  exists "clip". eexists. exists (Method "clip"), (Namespace "clip").
-  split; [in_table|]. split; [in_list|]. split; [in_list|]. split; vm_compute; reflexivity.
+  assert (forallb (fun cls => forallb (fun os => forallb (fun s => negb (is_coerced_leaf (resolve tables false FUEL cls s)))
+                                                        (snd os)) op_classes) classes = true) as H
+    by (vm_compute; reflexivity).
+  intros cls op ss s Hc Ho Hs.
+  pose proof (proj1 (forallb_forall _ _) H cls Hc) as H1.
+  pose proof (proj1 (forallb_forall _ _) H1 (op, ss) Ho) as H2.
+  pose proof (proj1 (forallb_forall _ _) H2 s Hs) as H3.
+  apply negb_true_iff. exact H3.
 Qed.
+
+(* the own bodies that duplicate a ufunc path construct their result with prune=True (or delegate to the COO body) *)
+Lemma dup_bodies_prune_proof : forall cls m b, In (cls, m, b) dup_bodies -> dup_body_prunes b = true.
+Proof.
+  assert (forallb (fun e => dup_body_prunes (snd e)) dup_bodies = true) as H by (vm_compute; reflexivity).
+  intros cls m b Hi. exact (proj1 (forallb_forall _ _) H (cls, m, b) Hi).
+Qed.
+
+Example dup_bodies_example :
+  In ("COO", "isnan", DupCtor "COO" [("shape", LOpaque "self.shape"); ("fill_value", LName "new_fill_value"); ("prune", LBool true)]) dup_bodies /\
+  dup_body_prunes (DupCtor "COO" [("has_duplicates", LBool false); ("sorted", LBool true)]) = false.
+Proof. split; [in_list | reflexivity]. Qed.
 
 (* an operation a class does not support at all fails with different exception classes *)
 Lemma unsupported_exception_class_refuted_proof :
